@@ -1,9 +1,8 @@
 #!/bin/bash
 # round-2 seeds (written after the first round of checks existed) against the checks
-export BV_MAX_REPLAYS=1
+export BV_MAX_REPLAYS=0
 OUT=/verif/seeded/RESULTS.txt
 run() { seed=$1; prop=$2; only=$3; if [ "$only" = "-" ]; then r=$(/verif/kani/seedtest.sh $seed $prop 2>&1 | grep SEEDTEST); else r=$(/verif/kani/seedtest.sh $seed $prop --only "$only" 2>&1 | grep SEEDTEST); fi; echo "$r only=$only" >> $OUT; }
-run C01-r2m1 C01 'c01_walk_v0_v1ext'
 run C01-r2m2 C01 'c01_walk_v0_v1ext'
 run C02-r2m1 C02 'to_proto'
 run C02-r2m2 C02 -
